@@ -60,6 +60,9 @@ def configs(tier):
                   ops=BASIC + ("cancel", "cancel_group", "lock"), maxops=3 + b, props=("C07", "C02", "C03")))
     C.append(conf("arm_map", size=1, tpl=[T(kind="map", num=2, nc=1, ecb="sync")], arms=("ecb", "call", "pull", "begin"),
                   ops=BASIC + ("cancel", "cancel_group", "cancel_all"), maxops=3 + b, props=("C07", "C05")))
+    # a cancellation reaching a task inside its own last step, followed by flush / gather_and_close (open finding KF-K)
+    C.append(conf("arm_then_gather", size=2, tpl=[T(num=2, imm=False, ecb="sync")], arms=("fin", "begin"), nh=1,
+                  hkinds=("gac", "flush"), ops=BASIC + ("cancel", "cancel_group", "hstart"), maxops=4 + b, props=("C08", "C12")))
     # C15 (known finding KF-B): pool_size read / assigned with tasks in flight
     C.append(conf("set_size", size=1, tpl=[T(num=3)], ops=BASIC + ("set_size",), sizevals=(-1, 0, 2), maxops=4 + b, props=("C15",)))
     # randomised deeper runs of the whole operation vocabulary
